@@ -576,7 +576,7 @@ fn verif_build_long_histories()
       C18  the same history with the table erased before every invocation gives the same verdicts and files
     --------------------------------------------------------------------------------------------------------------------------- */
 #[derive(Clone, Copy, Debug, PartialEq)]
-enum Op { Build, BuildErrors(usize), BuildReport(usize, &'static [&'static str]), Clean, Write(&'static str, &'static str), Delete(&'static str), RemoveDir(&'static str), MkDir(&'static str), SetExec(&'static str) }
+enum Op { Build, BuildErrors(usize), BuildReport(usize, &'static [&'static str]), BuildGoal(&'static str, &'static [&'static str]), CleanGoal(&'static str, &'static [&'static str]), Clean, Write(&'static str, &'static str), Delete(&'static str), RemoveDir(&'static str), MkDir(&'static str), SetExec(&'static str) }
 struct Mini { name: &'static str, rules: &'static str, files: &'static [(&'static str, &'static str)], dirs: &'static [&'static str], targets: &'static [&'static str], histories: Vec<Vec<Op>> }
 
 type Snap = (std::collections::BTreeMap<String, (String, std::time::SystemTime, bool)>, BTreeSet<String>);
@@ -633,12 +633,13 @@ fn run_mini(m: &Mini, h: &Vec<Op>, drop_table: bool) -> Outcome
             Op::RemoveDir(p) => { if system.is_dir(p) { let _ = system.remove_dir(p); } quiet_since_ok_build = false; },
             Op::MkDir(p) => { if !system.is_dir(p) { system.create_dir(p).unwrap(); } quiet_since_ok_build = false; },
             Op::SetExec(p) => { if system.is_file(p) { system.set_is_executable(p, true).unwrap(); } quiet_since_ok_build = false; },
-            Op::Build | Op::BuildErrors(_) | Op::BuildReport(_, _) =>
+            Op::Build | Op::BuildErrors(_) | Op::BuildReport(_, _) | Op::BuildGoal(_, _) =>
             {
                 is_ruler = true;
                 if drop_table && system.is_file(".ruler/current_file_states") { system.remove_file(".ruler/current_file_states").unwrap(); }
                 let sys2 = system.clone();
-                let result = match std::panic::catch_unwind(std::panic::AssertUnwindSafe(move || build(sys2, &mut EmptyPrinter::new(), params(None))))
+                let (goal, scope) : (Option<&'static str>, Vec<&str>) = match op { Op::BuildGoal(g, sc) => (Some(*g), sc.to_vec()), _ => (None, m.targets.to_vec()) };
+                let result = match std::panic::catch_unwind(std::panic::AssertUnwindSafe(move || build(sys2, &mut EmptyPrinter::new(), params(goal))))
                 {
                     Ok(r) => r,
                     Err(_) => { complaints.push(("B-build-C05".to_string(), "build() panicked".to_string())); verdicts.push(false); continue; },
@@ -675,12 +676,12 @@ fn run_mini(m: &Mini, h: &Vec<Op>, drop_table: bool) -> Outcome
                     {
                         for (t, w) in m.targets.iter().zip(want.iter())
                         {
-                            if read(&system, t) != *w { complaints.push(("B-build-C01".to_string(), format!("after a successful build {} holds {:?}, a from-scratch build of the same sources gives {:?}", t, read(&system, t), w))); }
+                            if scope.contains(t) && read(&system, t) != *w { complaints.push(("B-build-C01".to_string(), format!("after a successful build {} holds {:?}, a from-scratch build of the same sources gives {:?}", t, read(&system, t), w))); }
                         }
                     }
                     let mut contents : Vec<Option<String>> = m.targets.iter().map(|t| read(&system, t)).collect();
                     let k = contents.len(); contents.sort(); contents.dedup();
-                    if quiet_since_ok_build && contents.len() == k && ran != 0
+                    if goal.is_none() && quiet_since_ok_build && contents.len() == k && ran != 0
                     {
                         complaints.push(("B-build-C02".to_string(), format!("{} command(s) ran in a build that follows a successful build (and possibly a clean) with nothing changed", ran)));
                     }
@@ -690,15 +691,23 @@ fn run_mini(m: &Mini, h: &Vec<Op>, drop_table: bool) -> Outcome
                     }
                     exec_at_clean.clear();
                 }
-                quiet_since_ok_build = ok;
+                quiet_since_ok_build = ok && goal.is_none();
+                /*  C09: a goal build leaves every target outside the goal's scope exactly as it was */
+                if goal.is_some()
+                {
+                    let after = snapshot(&system);
+                    for t in m.targets.iter() { if !scope.contains(t) && after.0.get(*t) != before.0.get(*t) { complaints.push(("B-build-C09".to_string(), format!("{} is outside the scope of goal {:?} and was changed by the build", t, goal))); } }
+                }
             },
-            Op::Clean =>
+            Op::Clean | Op::CleanGoal(_, _) =>
             {
                 is_ruler = true;
                 if drop_table && system.is_file(".ruler/current_file_states") { system.remove_file(".ruler/current_file_states").unwrap(); }
                 let recorded : Vec<(String, bool)> = m.targets.iter().filter(|t| system.is_file(t)).map(|t| (t.to_string(), system.is_executable(t).unwrap_or(false))).collect();
                 let sys2 = system.clone();
-                let cleaned = match std::panic::catch_unwind(std::panic::AssertUnwindSafe(move || clean(sys2, ".ruler", vec!["build.rules".to_string()], None)))
+                let (goal, scope) : (Option<String>, Vec<&str>) = match op { Op::CleanGoal(g, sc) => (Some(g.to_string()), sc.to_vec()), _ => (None, m.targets.to_vec()) };
+                let goal2 = goal.clone();
+                let cleaned = match std::panic::catch_unwind(std::panic::AssertUnwindSafe(move || clean(sys2, ".ruler", vec!["build.rules".to_string()], goal2)))
                 {
                     Ok(r) => r,
                     Err(_) => { complaints.push(("B-build-C05".to_string(), "clean() panicked".to_string())); verdicts.push(false); continue; },
@@ -706,10 +715,16 @@ fn run_mini(m: &Mini, h: &Vec<Op>, drop_table: bool) -> Outcome
                 verdicts.push(cleaned.is_ok());
                 if cleaned.is_ok()
                 {
-                    for t in m.targets.iter() { if system.is_file(t) { complaints.push(("B-build-C10".to_string(), format!("{} is still in the workspace after a clean that reported success", t))); } }
-                    exec_at_clean = recorded;
+                    for t in scope.iter() { if system.is_file(t) { complaints.push(("B-build-C10".to_string(), format!("{} is still in the workspace after a clean that reported success", t))); } }
+                    exec_at_clean = recorded.into_iter().filter(|(p, _)| scope.contains(&p.as_str())).collect();
                 }
                 else { quiet_since_ok_build = false; }
+                if goal.is_some()
+                {
+                    quiet_since_ok_build = false;
+                    let after = snapshot(&system);
+                    for t in m.targets.iter() { if !scope.contains(t) && after.0.get(*t) != before.0.get(*t) { complaints.push(("B-build-C09".to_string(), format!("{} is outside the scope of goal {:?} and was changed by the clean", t, goal))); } }
+                }
             },
         }
         if is_ruler
@@ -786,6 +801,15 @@ mycat
 config.in
 config.in
 data
+:
+
+notes.txt
+:
+.notes.src
+:
+mycat
+.notes.src
+notes.txt
 :
 ";
 const RULES_TOOL : &str = "\
@@ -866,14 +890,19 @@ fn verif_build_mini_scenarios()
                    vec![Build, Write("verse.txt", "Violets are blue.\n"), Build, Delete("out/sub/deep.txt"), RemoveDir("out/sub"), Write("verse.txt", "Roses are red.\n"), Build],
                    vec![Build, Write("verse.txt", "Violets are blue.\n"), Build, Write("verse.txt", "Roses are red.\n"), Build, Clean, Build],
                ] },
-        Mini { name: "names that differ by leading dots", rules: RULES_DOTTED, files: &[("defconfig", "CONFIG_FROM_DEFCONFIG=y\n"), ("config.in", "option from config.in\n")], dirs: &[],
-               targets: &[".config", "config", "..data", "data"],
+        Mini { name: "names that differ by leading dots", rules: RULES_DOTTED, files: &[("defconfig", "CONFIG_FROM_DEFCONFIG=y\n"), ("config.in", "option from config.in\n"), (".notes.src", "hidden notes\n"), ("notes.src", "a file that only looks related\n")], dirs: &[],
+               targets: &[".config", "config", "..data", "data", "notes.txt"],
                histories: vec![
                    vec![Build, Build, Delete(".config"), Delete("config"), Build],
                    vec![Build, Build, Delete("..data"), Delete("data"), Build],
                    vec![Build, Clean, Build],
                    vec![Build, Write("defconfig", "CONFIG_NEW=y\n"), Build, Write("defconfig", "CONFIG_FROM_DEFCONFIG=y\n"), Build, Build],
                    vec![Build, Write("config.in", "another option\n"), Build, Clean, Write("config.in", "option from config.in\n"), Build],
+                   /*  a source whose name starts with a dot, next to a file with the name without the dot */
+                   vec![Build, Write(".notes.src", "hidden notes, revised\n"), Build, Write(".notes.src", "hidden notes\n"), Build],
+                   /*  goals whose names start with dots, next to targets with the names without them */
+                   vec![BuildGoal(".config", &[".config"]), Write("defconfig", "CONFIG_NEW=y\n"), Write("config.in", "another option\n"), BuildGoal(".config", &[".config"]), Build],
+                   vec![Build, CleanGoal(".config", &[".config"]), Build, CleanGoal("..data", &["..data", "data"]), Build],
                ] },
         Mini { name: "an executable target", rules: RULES_TOOL, files: &[("tool.src", "#!/bin/sh\necho tool\n"), ("intro.txt", "How to use the tool.\n")], dirs: &[],
                targets: &["tool.sh", "manual.txt"],
